@@ -29,14 +29,19 @@ def config(role, apps=(), watchdog=30):
 
 # -- reference-built wire messages of the peer ----------------------------------------------------------
 
+def _b(x):
+    return x if isinstance(x, bytes) else x.encode()
+
+
 def _id(host, realm):
-    return [(264, 0x40, None, host.encode()), (296, 0x40, None, realm.encode())]
+    return [(264, 0x40, None, _b(host)), (296, 0x40, None, _b(realm))]
 
 
-def cer(hbh=0x01010101, e2e=0x02020202, host=None, realm=None, drop=None, apps=(S6A,), dup=None):
+def cer(hbh=0x01010101, e2e=0x02020202, host=None, realm=None, drop=None, apps=(S6A,), dup=None, extra=()):
     avps = _id(host or PEER["host"], realm or PEER["realm"]) + [
         (257, 0x40, None, b"\x00\x01\x7f\x00\x00\x02"), (266, 0x40, None, (0).to_bytes(4, "big")),
         (269, 0x00, None, b"peer-product")]
+    avps = list(extra) + avps        # foreign AVPs first: validators that look AVPs up by code meet them first
     if dup is not None:
         avps += [a for a in avps if a[0] == dup]
     for a in apps:
